@@ -79,6 +79,51 @@ def make_base(kind, seed, workdir):
         meta[b"info"][b"x-info"] = [b"\x80\x81", 1]
         meta[b"info"][b"zz"] = {b"k": b"\xfe"}
         return bencode.encode(meta)
+    if opts == "falsy":
+        # a foreign metafile whose optional fields are present but empty /
+        # zero (as some encoders write them): unnamed ones stay as they are
+        tree = dict(files)
+        name = world.ROOT_NAME
+        meta = model.ref_v1(name, tree, P0) if ver == "v1" else (
+            model.ref_v2(name, tree, P0, 16384) if ver == "v2"
+            else model.ref_hybrid(name, tree, P0, 16384))
+        meta[b"info"][b"private"] = 0
+        meta[b"info"][b"comment"] = b""
+        meta[b"info"][b"source"] = b""
+        meta[b"url-list"] = []
+        meta[b"httpseeds"] = []
+        meta[b"announce"] = b"http://f/a"
+        meta[b"announce-list"] = []
+        return bencode.encode(meta)
+    if opts == "nested":
+        # well-formed but with nested dictionaries in insertion order: file
+        # entries written path-before-length, leaves pieces-root-before-
+        # length, the file tree's children in reverse order
+        tree = dict(files)
+        name = world.ROOT_NAME
+        meta = bencode.plain(bencode.decode(bencode.encode(
+            model.ref_v1(name, tree, P0) if ver == "v1" else (
+                model.ref_v2(name, tree, P0, 16384) if ver == "v2"
+                else model.ref_hybrid(name, tree, P0, 16384)),
+        ), strict=False))
+        meta[b"announce"] = b"http://f/a"
+        meta[b"info"][b"comment"] = b"old comment"
+        meta[b"info"][b"private"] = 1
+
+        def enc_rev(v, top=False):
+            if isinstance(v, dict):
+                keys = sorted(v) if top else sorted(v, reverse=True)
+                return b"d" + b"".join(bencode.encode(k) + enc_rev(v[k])
+                                       for k in keys) + b"e"
+            if isinstance(v, list):
+                return b"l" + b"".join(enc_rev(x) for x in v) + b"e"
+            return bencode.encode(v)
+        ib = b"d" + b"".join(bencode.encode(k) + enc_rev(meta[b"info"][k])
+                             for k in sorted(meta[b"info"])) + b"e"
+        return b"d" + b"".join(
+            bencode.encode(k) + (ib if k == b"info" else
+                                 bencode.encode(meta[k]))
+            for k in sorted(meta)) + b"e"
     creator = {"v1": "TorrentFile", "v2": "Assembler2", "hy": "Assembler3"}[ver]
     kw = dict(OPTS_ALL) if opts in ("full", "legacy") else {}
     tf.reset_process_state()
@@ -356,7 +401,7 @@ class EditBFS:
             if self.id == "C07":
                 # non-canonical input: only C07 can be judged on it (C06 is
                 # about what torrentfile writes from canonical input)
-                optsets.append("legacy")
+                optsets += ["legacy", "falsy", "nested"]
             for opts in optsets:
                 for route in ("lib", "cli"):
                     gs.append({"kind": "bfs", "base": [ver, opts],
@@ -597,7 +642,8 @@ class EditBFS:
         # quick: the option-rich bases are explored to depth 2 only (their
         # fixpoint contains the bare base's fixpoint, explored completely)
         depth_cap = 2 if (not thorough and base[1] in ("full", "legacy",
-                                                       "names")
+                                                       "names", "falsy",
+                                                       "nested")
                           and route == "lib") else None
         reqs1, pairs = requests(route, g["tier"])
         reqs2 = reqs1 + pairs
@@ -719,9 +765,18 @@ class EditBFS:
                          {"shape": "D3d", "sizes": [2 * P0 + 1, 7, P0 + 5],
                           "cids": [0, 1, 2]},
                          {"shape": "D3num", "sizes": [2 * P0 + 1, 7, P0 + 5],
-                          "cids": [0, 1, 2]}):
+                          "cids": [0, 1, 2]}) + tuple(
+                    # name relations that make orders disagree (per directory
+                    # level vs whole path, bytes vs normalised forms)
+                    {"shape": sh_, "sizes": [2 * P0 + 1, 7, P0 + 5][
+                        :world.nfiles(sh_)], "cids": [0, 1, 2][
+                        :world.nfiles(sh_)], "names_only": True}
+                    for sh_ in ("D3o", "D3q", "D3b", "D3n", "D2rr", "D3u",
+                                "D3p", "D3e") if wkey == sorted(worlds)[0]):
                 files = world.files_of(sh_w, seed)
                 for mask in range(32):
+                    if sh_w.get("names_only") and mask not in (0, 21):
+                        continue
                     kw = {}
                     for i, o in enumerate(opts):
                         if mask >> i & 1:
